@@ -203,11 +203,30 @@ def _abs(x):
     return V.sabs(x)
 
 
+class ChunkSizesV:
+    """the chunk lengths of one axis of a dask array (an arbitrary partition of the axis): only min() / max() / sum()
+    are modelled -- values between 1 and the axis length, unconstrained otherwise (they depend on the chunking)"""
+    _pyvc_native = True
+
+    def __init__(self, n):
+        self.n = n
+
+    def extreme(self, which, interp):
+        v = V.fresh("chunk_" + which, "int")
+        interp.path.assume(V.sand(V.compare(">=", v, 1), V.compare("<=", v, self.n)))
+        return v
+
+    def __iter__(self):
+        raise Unsupported("iteration over the chunk sizes of a dask array")
+
+
 def _minmax(which):
     f2 = V.smin if which == "min" else V.smax
 
     @wants_interp
     def f(interp, *args, **kw):
+        if len(args) == 1 and isinstance(args[0], ChunkSizesV):
+            return args[0].extreme(which, interp)
         if len(args) == 1:
             items = list(interp.iterate(args[0]))
         else:
@@ -318,6 +337,10 @@ def _sorted(interp, it, key=None, reverse=False):
 def _list(interp, it=()):
     s_ = _loops().siter(it)
     if s_ is not None:
+        if getattr(it, "aliased", False):
+            # materialising a generator that yields one object it keeps updating: n references to its final state
+            n_, get_ = s_
+            return _loops().SList(n_, lambda i: get_(V.arith("-", n_, 1)))
         return _loops().SList(s_[0], s_[1])
     return list(interp.iterate(it))
 
@@ -327,6 +350,9 @@ def _list(interp, it=()):
 def _tuple(interp, it=()):
     s_ = _loops().siter(it)
     if s_ is not None:
+        if getattr(it, "aliased", False):
+            n_, get_ = s_
+            return _loops().SList(n_, lambda i: get_(V.arith("-", n_, 1)))
         return _loops().SList(s_[0], s_[1])
     return tuple(interp.iterate(it))
 
@@ -691,6 +717,14 @@ def np_array(x, dtype=None, copy=True, **kw):
             w = len(probe)
             fn = x.fn
             return SArr((x.n, w), lambda idx: _pick(fn(idx[0]), idx[1]), _dt(dtype) or "real")
+        if is_num(probe) and dtype is None:
+            # a list of n numbers: numpy infers the dtype from the elements -- and float64 for the EMPTY list
+            p = V.PATH[0]
+            empty = p.branch(V.compare("==", x.n, 0)) if p is not None else False
+            if empty:
+                return SArr((0,), lambda idx: 0, "real")
+            fn = x.fn
+            return SArr((x.n,), lambda idx: fn(idx[0]), V.kind_of(probe) if hasattr(V, "kind_of") else "real")
     if dtype is B.get("object") or dtype == "object":
         # object array: nested lists give the shape, the leaves are kept as they are
         shape = []
@@ -1281,7 +1315,25 @@ class UnraveledArgmax:
 def np_argmax(a, axis=None, **kw):
     a = A.from_nested(a)
     if axis is not None:
-        raise Unsupported("argmax along an axis")
+        if axis != 0 or a.ndim < 2:
+            raise Unsupported("argmax along an axis other than 0")
+        # per position of the remaining axes an index r into axis 0 with a[r, ...] >= a[t, ...] for every t
+        # (the first maximiser; only "a maximiser" is modelled)
+        p0 = V.PATH[0]
+        rest = a.shape[1:]
+        f = z3.Function(V.fresh_name("argmax0"), *([z3.IntSort()] * len(rest)), z3.IntSort())
+        af = a.snapshot()
+        if p0 is not None:
+            js = [z3.Int(V.fresh_name("aj")) for _ in rest]
+            t = z3.Int(V.fresh_name("at"))
+            rng = z3.And(*[z3.And(j >= 0, j < V.lift(s_)) for j, s_ in zip(js, rest)])
+            r = f(*js)
+            ge = V.lift(V.compare(">=", af((Sym(r),) + tuple(Sym(j) for j in js)), af((Sym(t),) + tuple(Sym(j) for j in js))))
+            p0.conds.append(z3.ForAll(js, z3.Implies(rng, z3.And(r >= 0, r < V.lift(a.shape[0])))))
+            p0.conds.append(z3.ForAll(js + [t], z3.Implies(z3.And(rng, t >= 0, t < V.lift(a.shape[0])), ge)))
+            if V.SAFETY[0]:
+                p0.oblige("safety.argmax_nonempty", V.compare(">=", a.shape[0], 1), {"kind": "safety", "clause": "argmax of a non-empty axis"})
+        return SArr(tuple(rest), lambda idx: Sym(f(*[V.lift(i) for i in idx])), "int")
     p = V.PATH[0]
     if all(isinstance(s, int) for s in a.shape) and a.size <= 64 and all(
             not is_sym(a.at(idx)) for idx in itertools.product(*[range(s) for s in a.shape])):
@@ -1313,6 +1365,28 @@ def np_argmax(a, axis=None, **kw):
 
 
 REG["numpy.argmax"] = np_argmax
+
+
+@reg("numpy.argsort")
+def np_argsort(a, axis=-1, kind=None, **kw):
+    """argsort of a 1-d array: a permutation p of the positions with a[p[0]] <= a[p[1]] <= ... (trusted numpy contract;
+    stability is not modelled)"""
+    a = A.from_nested(a)
+    if a.ndim != 1:
+        raise Unsupported("argsort of a multi-dimensional array")
+    n = a.shape[0]
+    f = z3.Function(V.fresh_name("argsort"), z3.IntSort(), z3.IntSort())
+    g = z3.Function(V.fresh_name("argsort_inv"), z3.IntSort(), z3.IntSort())
+    p = V.PATH[0]
+    af = a.snapshot()
+    if p is not None:
+        j, i = z3.Int(V.fresh_name("sj")), z3.Int(V.fresh_name("si"))
+        nn = V.lift(n)
+        p.conds.append(z3.ForAll([j], z3.Implies(z3.And(j >= 0, j < nn), z3.And(f(j) >= 0, f(j) < nn, g(f(j)) == j))))
+        p.conds.append(z3.ForAll([i], z3.Implies(z3.And(i >= 0, i < nn), z3.And(g(i) >= 0, g(i) < nn, f(g(i)) == i))))
+        le = V.compare("<=", af((Sym(f(j)),)), af((Sym(f(j + 1)),)))
+        p.conds.append(z3.ForAll([j], z3.Implies(z3.And(j >= 0, j + 1 < nn), V.lift(le) if is_sym(le) else z3.BoolVal(bool(le)))))
+    return SArr((n,), lambda idx: Sym(f(V.lift(idx[0]))), "int")
 REG["numpy.unravel_index"] = np_unravel_index
 
 
@@ -1447,6 +1521,8 @@ def _map_overlap(interp, a, func, *args, depth=0, boundary=None, trim=True, dtyp
 
 def _arr_method(arr, name):
     a = arr
+    if name == "chunks":
+        return tuple(ChunkSizesV(s_) for s_ in a.shape)
     if name == "map_overlap":
         return wants_interp(lambda interp, func, *args, **kw: _map_overlap(interp, a, func, *args, **kw))
     if name == "shape":
@@ -1591,6 +1667,8 @@ def np_take_along_axis(arr, indices, axis):
     a, ix = A.from_nested(arr), A.from_nested(indices)
     if not (a.ndim == 2 and ix.ndim == 2 and axis == 0 and isinstance(ix.shape[1], int) and ix.shape[1] == 1):
         raise Unsupported("take_along_axis other than rows of a matrix")
+    if ix.dtype not in ("int", "bool"):
+        raise X.PyRaise(X.Obj(X.BUILTIN_EXC["IndexError"], {"args": ("arrays used as indices must be of integer (or boolean) type",)}))
     af, xf = a.snapshot(), ix.snapshot()
     n0 = a.shape[0]
     return SArr((ix.shape[0], a.shape[1]), lambda idx: af((A.norm_index(xf((idx[0], 0)), n0, force=True), idx[1])), a.dtype)
@@ -2002,6 +2080,18 @@ REG["dask.array.from_delayed"] = _from_delayed
 
 # dask.array ------------------------------------------------------------------
 REG["dask.array.pad"] = np_pad
+def _da_dot(a, b):
+    """dot over a possibly symbolic inner extent: uninterpreted result, the two factors recorded as ghost state"""
+    a, b = A.from_nested(a), A.from_nested(b)
+    if a.ndim == 2 and b.ndim == 2 and not isinstance(a.shape[1], int):
+        res = _uf_array("Dot", (a.shape[0], b.shape[1]), "real")
+        GHOST.setdefault("dot", []).append((res, a, b))
+        return res
+    return np_dot(a, b)
+
+
+REG["dask.array.dot"] = _da_dot
+REG["sklearn.utils.validation.check_is_fitted"] = lambda *a, **k: None
 REG["dask.array.from_array"] = lambda x, *a, **k: A.from_nested(x)
 REG["dask.array.asarray"] = lambda x, *a, **k: A.from_nested(x)
 REG["dask.array.Array"] = TypeTag("dask.Array", lambda x: isinstance(x, SArr) and getattr(x, "lazy", True))
@@ -2114,7 +2204,15 @@ def _ndi_center_of_mass(input, labels=None, index=None):
     if si is None:
         items = list(index)
         return [tuple(Sym(f(z3.IntVal(i), z3.IntVal(c))) for c in range(nd)) for i in range(len(items))]
-    return L.SList(si[0], lambda i: tuple(Sym(f(V.lift(i), z3.IntVal(c))) for c in range(nd)))
+    out = L.SList(si[0], lambda i: tuple(Sym(f(V.lift(i), z3.IntVal(c))) for c in range(nd)))
+    p = V.PATH[0]
+    if p is not None:
+        # trusted: with positive weights a component's centre of mass lies inside the image (in its bounding box)
+        i = z3.Int(V.fresh_name("ci"))
+        p.conds.append(z3.ForAll([i], z3.Implies(z3.And(i >= 0, i < V.lift(si[0])), z3.And(*[
+            z3.And(f(i, z3.IntVal(c)) >= 0, f(i, z3.IntVal(c)) <= V.lift(a.shape[c]) - 1) for c in range(nd)]))))
+    GHOST.setdefault("ndi", []).append(("center_of_mass_list", out, (input,), {}))
+    return out
 
 
 REG["acryo._typed_scipy.shift"] = REG["scipy.ndimage.shift"]
